@@ -64,7 +64,14 @@ pub fn form_groups(name: &str, same_operand: bool) -> Vec<Vec<u16>> {
                 _ => vec![mk(&[0, 1, 2, 3, 10])],
             }
         }
-        ("f" | "d", "add" | "sub" | "mul" | "div" | "rem") => with_take(r(10)),
+        ("f" | "d", "add" | "sub" | "mul" | "div" | "rem") => {
+            // native rounding mode (with operand-moving variants) + four more rounding modes, one group each
+            let mut g = with_take(r(10));
+            for m in 1..5u16 {
+                g.push((0..10).map(|f| 16 * m + f).collect());
+            }
+            g
+        }
         ("f" | "d", "addi" | "muli") => r(9),
         ("f" | "d", "subi" | "divi") => vec![(0..7).collect(), vec![7, 8]],
         ("f" | "d", "shl" | "shr") => with_take(r(3)),
@@ -173,7 +180,8 @@ pub fn run_case(case: &Case, stats: &mut Stats, cnt: &mut C15Counters) -> CaseRe
         // ---------------- all forms of this operation on clones of the same world
         let groups = form_groups(&op.name, ix(op.a) == ix(op.b));
         let own_form = op.form;
-        if let Some(group) = groups.iter().find(|g| g.contains(&own_form)).or(groups.first()) {
+        let _ = own_form;
+        for group in groups.iter() {
             cnt.form_groups_run += 1;
             let mut outs: Vec<FormOutcome> = Vec::with_capacity(group.len());
             for &f in group {
